@@ -177,7 +177,7 @@ class ScenarioRunner:
         root = self._root
         if not probe.op_is_shared(root, op):
             return False
-        if self.dir_level_reduction and op.kind in ("probe", "mkdir") and op.path2 is None:
+        if self.dir_level_reduction and op.kind in ("probe", "getsize", "mkdir") and op.path2 is None:
             rel = op.path[len(root) + 1:].split(os.sep) if op.path.startswith(root + os.sep) else []
             if rel and rel[0] in self._leaf_depth and len(rel) < self._leaf_depth[rel[0]]:
                 # directory-level stat/mkdir: commutes with every other operation of the API
